@@ -232,15 +232,20 @@ def maxRate : List Row → Option Rat
   | [] => none
   | r :: rs => some (rs.foldl (fun m r' => max m r'.p) r.p)
 
+/-- One call `get_fit_params(p_list[resample], ..., params_0=params_opt)` of the bootstrap loop:
+    `bounds = [min, max]` of the (resampled) error rates; when `params_0[0]` is not inside
+    (also when it is NaN = `none`) it is overwritten *in place* with the midpoint
+    (`params_0[0] = (bounds[0] + bounds[1]) / 2`), and `params_0` is the caller's `params_opt`. -/
+def overwriteStep (cur : Option Rat) (b : Rat × Rat) : Option Rat :=
+  match cur with
+  | some c => if b.1 ≤ c ∧ c ≤ b.2 then some c else some ((b.1 + b.2) / 2)
+  | none => some ((b.1 + b.2) / 2)
+
 /-- What `fit_fss_params` returns as `params_opt[0]` (reported as `fss_params[0]`), given the value
-    `raw` that `curve_fit` returned for the best fit.  The bootstrap loop passes the *same array*
-    `params_opt` as start vector to `get_fit_params`, which overwrites entry 0 in place with the
-    midpoint of the error-rate range when it lies outside that range (`params_0[0] = (bounds[0] +
-    bounds[1]) / 2`).  With at least one bootstrap iteration the caller's array is therefore changed. -/
-def reportedPth (raw pmin pmax : Rat) (nBootstrap : Nat) : Rat :=
-  if nBootstrap = 0 then raw
-  else if pmin ≤ raw ∧ raw ≤ pmax then raw
-  else (pmin + pmax) / 2
+    `raw` that `curve_fit` returned for the best fit and the error-rate ranges of the successive
+    bootstrap resamples. -/
+def reportedPth (raw : Option Rat) (bounds : List (Rat × Rat)) : Option Rat :=
+  bounds.foldl overwriteStep raw
 
 /-! ### quantiles of the bootstrap column (`np.median`, `np.quantile`, linear interpolation) -/
 
